@@ -32,9 +32,11 @@ def eqrow(a, b, nodes):
     return And(*[close(a[n], b[n]) for n in nodes])
 
 
-def h_rejection(ctx, bs, n, mode, K, region='main', nested=0, max_parallel=1, with_pool=False, earlier=None):
+def h_rejection(ctx, bs, n, mode, K, region='main', nested=0, max_parallel=1, with_pool=False, earlier=None, shapes=None):
     """region: 'main' (>= n finite admissible consumed draws assumed) | 'inf' (the complement: finding F1)."""
-    w = World(ctx, bs, max_batches=K, nested_d=nested)
+    # shapes: 'vector_summary' (summary rows of width 2), 'two_params' (second parameter u), 'd_column' (discrepancy (batch, 1))
+    w = World(ctx, bs, max_batches=K, nested_d=nested, vector_summary=shapes == 'vector_summary',
+              extra_param=shapes == 'two_params', d_column=shapes == 'd_column')
     kw = {}
     thr = None
     budget = None
@@ -48,7 +50,8 @@ def h_rejection(ctx, bs, n, mode, K, region='main', nested=0, max_parallel=1, wi
     elif mode == 'threshold':
         thr = ctx.xreal('threshold', specials=(INF,))
         kw['threshold'] = thr
-    nodes = ('t', 's', 'd') + (('d0',) if nested else ())
+    nodes = ('t', 's', 'd') + (('d0',) if nested else ()) + (('sv',) if shapes == 'vector_summary' else ()) + \
+        (('u',) if shapes == 'two_params' else ())
     with w.env():
         pool = elfi.OutputPool(['t', 's', 'd']) if with_pool else None
         rej = elfi.Rejection(w.model['d'], batch_size=bs, seed=w.seed, output_names=['s'], pool=pool,
@@ -85,6 +88,14 @@ def h_rejection(ctx, bs, n, mode, K, region='main', nested=0, max_parallel=1, wi
     ctx.claim('n_rows_each_output', all(len(outs[k]) == n for k in ('t', 's', 'd')))
     if nested:
         ret = [{'t': outs['t'][j], 's': outs['s'][j], 'd': outs['d'][j][-1], 'd0': outs['d'][j][0]} for j in range(n)]
+    elif shapes == 'vector_summary':
+        ctx.claim('summary_output_keeps_its_row_width', np.shape(outs['s']) == (n, 2))
+        ret = [{'t': outs['t'][j], 's': outs['s'][j][0], 'sv': outs['s'][j][1], 'd': outs['d'][j]} for j in range(n)]
+    elif shapes == 'two_params':
+        ctx.claim('parameters_are_t_and_u', list(sample.parameter_names) == ['t', 'u'])
+        ret = [{'t': outs['t'][j], 'u': outs['u'][j], 's': outs['s'][j], 'd': outs['d'][j]} for j in range(n)]
+    elif shapes == 'd_column':
+        ret = [{'t': outs['t'][j], 's': outs['s'][j], 'd': np.reshape(outs['d'][j], -1)[-1]} for j in range(n)]
     else:
         ret = [{'t': outs['t'][j], 's': outs['s'][j], 'd': outs['d'][j]} for j in range(n)]
     for j in range(n):
@@ -110,8 +121,8 @@ def h_rejection(ctx, bs, n, mode, K, region='main', nested=0, max_parallel=1, wi
         ctx.claim('returned_within_threshold', And(*[ret[j]['d'] <= thr for j in range(n)]))
     # (4) reported threshold
     rthr = sample.threshold
-    if nested:
-        rthr = rthr[-1]
+    if nested or shapes == 'd_column':
+        rthr = np.reshape(rthr, -1)[-1]
     ctx.claim('threshold_is_largest_returned_discrepancy', close(rthr, last))
     # (5) counts
     ctx.claim('n_sim_is_batch_size_times_consumed', sample.n_sim == bs * len(cons))
@@ -137,7 +148,7 @@ def mk(name, **p):
     tiers = p.pop('tiers', ('quick', 'thorough'))
     b = 'batch_size=%d n_samples=%d mode=%s <=%d batches%s%s%s' % (
         p['bs'], p['n'], p['mode'], p['K'], ' nested distance' if p.get('nested') else '',
-        ' max_parallel=%d' % p['max_parallel'] if p.get('max_parallel') else '',
+        (' max_parallel=%d' % p['max_parallel'] if p.get('max_parallel') else '') + (' shapes=%s' % p['shapes'] if p.get('shapes') else ''),
         '; second run on a sampler object that finished a %s run before' % p['earlier'] if p.get('earlier') else '')
     return H(name, h_rejection, p, tiers=tiers, bounds=b,
              finding='C01/inf-tie-placeholder' if region == 'inf' else None,
@@ -167,6 +178,9 @@ HARNESSES = [
     mk('quantile_bs2_n1_second_run', bs=2, n=1, mode='quantile', K=2, earlier='n_sim', tiers=('thorough',)),
     mk('nsim_bs2_n2_pool', bs=2, n=2, mode='n_sim', K=2, with_pool=True),
     mk('nsim_bs2_n2_nested', bs=2, n=2, mode='n_sim', K=2, nested=1),
+    mk('nsim_bs2_n2_vector_summary', bs=2, n=2, mode='n_sim', K=2, shapes='vector_summary'),
+    mk('threshold_bs2_n1_two_params', bs=2, n=1, mode='threshold', K=2, shapes='two_params'),
+    mk('quantile_bs2_n2_d_column', bs=2, n=2, mode='quantile', K=2, shapes='d_column'),
     # region of the known finding: fewer than n finite admissible draws among the consumed ones
     mk('inf_nsim_bs2_n2', bs=2, n=2, mode='n_sim', K=1, region='inf'),
     mk('inf_nsim_bs1_n2', bs=1, n=2, mode='n_sim', K=2, region='inf', tiers=('thorough',)),
